@@ -288,10 +288,22 @@ def observe_loops(job):
     from AegeanTools import angle_tools as at
     cols = [[fl(it[k]) for it in items] for k in (2, 3, 4, 5)]
     err = ""
+    argsok = True
     try:
-        qra, qdec = _call(at.translate, mode, *cols)
-        d = _call(at.gcd, mode, cols[0], cols[1], list(qra), list(qdec))
-        b = _call(at.bear, mode, cols[0], cols[1], list(qra), list(qdec))
+        if mode == "array":
+            # the same array objects are used for the call and afterwards, as a caller would
+            arrs = [np.array(c, dtype=np.float64) for c in cols]
+            keep = [a.copy() for a in arrs]
+            qra, qdec = at.translate(*arrs)
+            qra = np.broadcast_to(np.asarray(qra, dtype=np.float64), (len(items),)).copy()
+            qdec = np.broadcast_to(np.asarray(qdec, dtype=np.float64), (len(items),)).copy()
+            argsok = bool(all(np.array_equal(a, k) for a, k in zip(arrs, keep)))
+            d = np.broadcast_to(np.asarray(at.gcd(arrs[0], arrs[1], qra, qdec), dtype=np.float64), (len(items),))
+            b = np.broadcast_to(np.asarray(at.bear(arrs[0], arrs[1], qra, qdec), dtype=np.float64), (len(items),))
+        else:
+            qra, qdec = _call(at.translate, mode, *cols)
+            d = _call(at.gcd, mode, cols[0], cols[1], list(qra), list(qdec))
+            b = _call(at.bear, mode, cols[0], cols[1], list(qra), list(qdec))
     except Exception as e:
         err = "%s: %s" % (type(e).__name__, e)
         d = b = qra = qdec = np.zeros(len(items))
@@ -301,7 +313,7 @@ def observe_loops(job):
                      "band": it[1], "p": [tl(it[2]), tl(it[3])], "r": tl(it[4]), "t": tl(it[5]),
                      "q": [_safe_proj(float(qra[i])), _safe_proj(float(qdec[i]))],
                      "d": _safe_proj(float(d[i])), "b": _safe_proj(float(b[i])),
-                     "fin": _finite(d[i], b[i], qra[i], qdec[i]), "err": err})
+                     "fin": _finite(d[i], b[i], qra[i], qdec[i]), "err": err, "argsok": argsok})
     return recs
 
 
@@ -578,7 +590,7 @@ def selftest(ctx):
          "Z": [[0, 1, 1], [1, 0, 1], [1, 1, 0]], "fin": True, "err": ""}
     lp = {"id": "sg-good-l", "kind": "loop", "mode": "scalar", "band": "x", "p": P("10", "20"),
           "r": tl(deg("30")), "t": tl(deg("270")), "q": P("0", "0"), "d": tl(deg("30") + 900),
-          "b": tl(deg("-90") - 500), "fin": True, "err": ""}
+          "b": tl(deg("-90") - 500), "fin": True, "err": "", "argsok": True}
     D2 = [list(map(list, row)) for row in m["D"]]
     D2[0][2] = tl(deg("30") + 5000)
     D3 = [list(map(list, row)) for row in m["D"]]
